@@ -13,6 +13,8 @@ G2 = "autoarray.structures.grids.grid_2d_util:"
 
 # x * x, kept as an uninterpreted symbol (definition: opt-in axiom "sq18", see pyvc/ext/c18.py (7))
 macro("sq18", ["x"], "x * x", py=lambda x: x * x, opaque=(["real"], "real"))
+# identity, used only as the trigger that unfolds sq18 at chosen terms in ghost assertions
+macro("unf18", ["x"], "x", py=lambda x: x, opaque=(["real"], "real"))
 # distance of point i of the (n, 2) array A from (c0, c1)
 macro("rad18", ["A", "i", "c0", "c1"], "sqrt(sq18(A[i, 0] - c0) + sq18(A[i, 1] - c1))",
       py=lambda A, i, c0, c1: float(np.sqrt((A[i, 0] - c0) ** 2 + (A[i, 1] - c1) ** 2)))
@@ -31,16 +33,16 @@ _UNCH = "same18({o}[i, 0], grid[i, 0]) and same18({o}[i, 1], grid[i, 1])"
 
 def _rule(o):
     """the relocation rule for coordinate i, output array `o` (three clauses of the property statement)"""
-    inside = ("implies(forall(0, B, lambda j: " + _R + " <= " + _RB.format(j="j") + ", pat=border_grid[j, 0]), " + _UNCH.format(o=o) + ")")
+    inside = ("implies(forall(0, B, lambda j: " + _R + " <= " + _RB.format(j="j") + ", pat=" + _RB.format(j="j") + "), " + _UNCH.format(o=o) + ")")
     nearest = "forall(0, B, lambda j: dsq18(grid, i, border_grid, b) <= dsq18(grid, i, border_grid, j), pat=border_grid[j, 0])"
     m = _RB.format(j="b") + " / " + _R
     moved = ("(" + _RB.format(j="b") + " < " + _R + " and 0 <= " + m + " and " + m + " < 1"
              " and {o}[i, 0] == c0 + " + m + " * (grid[i, 0] - c0) and {o}[i, 1] == c1 + " + m + " * (grid[i, 1] - c1))").format(o=o)
     kept = "(" + _RB.format(j="b") + " >= " + _R + " and " + _UNCH.format(o=o) + ")"
-    outside = ("implies(exists(0, B, lambda j: " + _RB.format(j="j") + " < " + _R + ", pat=border_grid[j, 0]),"
-               " exists(0, B, lambda b: " + nearest + " and (" + moved + " or " + kept + "), pat=border_grid[b, 0]))")
-    bounded = ("le18(rad18(%s, i, c0, c1), %s) and exists(0, B, lambda j: le18(rad18(%s, i, c0, c1), %s), pat=border_grid[j, 0])"
-               % (o, _R, o, _RB.format(j="j")))
+    outside = ("implies(exists(0, B, lambda j: " + _RB.format(j="j") + " < " + _R + ", pat=" + _RB.format(j="j") + "),"
+               " exists(0, B, lambda b: " + nearest + " and (" + moved + " or " + kept + "), pat=" + _RB.format(j="b") + "))")
+    bounded = ("le18(rad18(%s, i, c0, c1), %s) and exists(0, B, lambda j: le18(rad18(%s, i, c0, c1), %s), pat=%s)"
+               % (o, _R, o, _RB.format(j="j"), _RB.format(j="j")))
     return inside, outside, bounded
 
 
@@ -56,9 +58,9 @@ _SAMEROW = "same18(grid_relocated[pixel_index, 0], grid[pixel_index, 0]) and sam
 _STEPS = [
     # not outside: row untouched, and its radius does not exceed any border radius
     "implies(not " + _OUTSIDE + ", " + _SAMEROW + ")",
-    "implies(not " + _OUTSIDE + ", forall(0, B, lambda j: " + _RI + " <= " + _RB.format(j="j") + ", pat=border_grid[j, 0]))",
+    "implies(not " + _OUTSIDE + ", forall(0, B, lambda j: " + _RI + " <= " + _RB.format(j="j") + ", pat=" + _RB.format(j="j") + "))",
     # outside: some border radius is smaller; cl is a nearest border point; radii are those of the statement
-    "implies(" + _OUTSIDE + ", exists(0, B, lambda j: " + _RB.format(j="j") + " < " + _RI + ", pat=border_grid[j, 0]))",
+    "implies(" + _OUTSIDE + ", exists(0, B, lambda j: " + _RB.format(j="j") + " < " + _RI + ", pat=" + _RB.format(j="j") + "))",
     "implies(" + _OUTSIDE + ", 0 <= closest_pixel_index and closest_pixel_index < B)",
     "implies(" + _OUTSIDE + ", forall(0, B, lambda j: dsq18(grid, pixel_index, border_grid, closest_pixel_index)"
     " <= dsq18(grid, pixel_index, border_grid, j), pat=border_grid[j, 0]))",
@@ -69,17 +71,22 @@ _STEPS = [
     + " and grid_relocated[pixel_index, 1] == c1 + " + _RC + " / " + _RI + " * " + _DX + ")",
     # moved: the new radius is the radius of the nearest border point  (sqrt(m^2 r^2) = m r = r_b)
     "implies(" + _MOVED + ", " + _OY + " == move_factor * " + _DY + " and " + _OX + " == move_factor * " + _DX + ")",
-    "implies(" + _MOVED + ", " + _OY + " * " + _OY + " + " + _OX + " * " + _OX + " == move_factor * move_factor * (" + _DY + " * " + _DY + " + " + _DX + " * " + _DX + "))",
-    "implies(" + _MOVED + ", " + _RI + " * " + _RI + " == " + _DY + " * " + _DY + " + " + _DX + " * " + _DX + ")",
+    "implies(" + _MOVED + ", sq18(unf18(" + _OY + ")) + sq18(unf18(" + _OX + ")) == move_factor * move_factor * (sq18(unf18(" + _DY + ")) + sq18(unf18(" + _DX + "))))",
+    "implies(" + _MOVED + ", sq18(" + _DY + ") + sq18(" + _DX + ") >= 0 and " + _RI + " * " + _RI + " == sq18(unf18(" + _DY + ")) + sq18(unf18(" + _DX + ")))",
     "implies(" + _MOVED + ", move_factor * " + _RI + " == " + _RC + ")",
-    "implies(" + _MOVED + ", move_factor * move_factor * (" + _DY + " * " + _DY + " + " + _DX + " * " + _DX + ") == " + _RC + " * " + _RC + ")",
+    "implies(" + _MOVED + ", move_factor * move_factor * (sq18(" + _DY + ") + sq18(" + _DX + ")) == " + _RC + " * " + _RC + ")",
     "implies(" + _MOVED + ", sqrt(" + _RC + " * " + _RC + ") == " + _RC + ")",
+    "implies(" + _MOVED + ", sq18(" + _OY + ") + sq18(" + _OX + ") == " + _RC + " * " + _RC + ")",
     "implies(" + _MOVED + ", rad18(grid_relocated, pixel_index, c0, c1) == " + _RC + ")",
 ]
 
 _ext.OPAQUE_SQUARE.add(G2 + "relocated_grid_via_jit_from")
+_ext.ROW_LEN[G2 + "relocated_grid_via_jit_from"] = 2
+_ext.NO_ARRAY_EXT.add(G2 + "relocated_grid_via_jit_from")
 _INS, _OUT, _BND = _rule("result")
 _INS_L, _OUT_L, _BND_L = _rule("grid_relocated")
+# ... and, last, the three clauses of the rule for the current row (the invariant bodies at i = pixel_index)
+_STEPS += [x.replace("[i, ", "[pixel_index, ").replace(", i, ", ", pixel_index, ") for x in (_INS_L, _OUT_L, _BND_L)]
 
 contract(
     G2 + "relocated_grid_via_jit_from", props=["C18"],
@@ -97,8 +104,8 @@ contract(
     ],
     loops={0: {"inv": [
         "border_origin[0] == c0 and border_origin[1] == c1",
-        "forall(0, B, lambda j: border_grid_radii[j] == " + _RB.format(j="j") + ", pat=(border_grid_radii[j], border_grid[j, 0]))",
-        "forall(0, N, lambda i: grid_radii[i] == " + _R + ", pat=(grid_radii[i], grid[i, 0]))",
+        "forall(0, B, lambda j: border_grid_radii[j] == " + _RB.format(j="j") + ", pat=(border_grid_radii[j], " + _RB.format(j="j") + "))",
+        "forall(0, N, lambda i: grid_radii[i] == " + _R + ", pat=(grid_radii[i], " + _R + "))",
         "forall(0, B, lambda j: border_min_radii <= border_grid_radii[j], pat=border_grid_radii[j])",
         "exists(0, B, lambda j: border_min_radii == border_grid_radii[j])",
         "forall(0, pixel_index, lambda i: " + _INS_L + ", pat=grid[i, 0])",
